@@ -20,6 +20,7 @@
 (*                                    obs: its callback is logged (Fired)  *)
 (*   Fired(w)                         a flush callback is being invoked    *)
 (*   FlushRet(w, ret)                 blocking/async flush returned        *)
+(*   EmptyReq(w) / EmptyFired(w)      a raw when_empty callback registered / invoked  *)
 (*   Take(n) / TakeEmpty              the receiver's hand-off              *)
 (*   Call(items)                      on_batch invoked                     *)
 (*   Ret(outcome, rem)                its result (ok|fail|retry|panic..)   *)
@@ -55,10 +56,11 @@ VARIABLES
     senderGone, recvGone, exited,
     kind,       \* function item -> which send operation it was given to
     budget,     \* attempts after which a batch is given up, once observed (0 = not yet known)
-    prevMax     \* the largest number of attempts any finished batch has had
+    prevMax,    \* the largest number of attempts any finished batch has had
+    ereg, efired \* raw when_empty callbacks: registered, invoked
 
 vars == <<l, cap, queue, acc, done, trunc, ntrunc, batch, cur, phase, lastRem, attempts,
-          lastWait, reg, fired, closing, senderGone, recvGone, exited, kind, budget, prevMax>>
+          lastWait, reg, fired, closing, senderGone, recvGone, exited, kind, budget, prevMax, ereg, efired>>
 
 SeqSet(q) == {q[i] : i \in 1..Len(q)}
 E == Rec[l]
@@ -68,7 +70,7 @@ Fresh ==
     /\ queue = <<>> /\ acc = <<>> /\ done = {} /\ trunc = {} /\ ntrunc = 0
     /\ batch = <<>> /\ cur = <<>> /\ phase = "idle" /\ lastRem = <<>> /\ attempts = 0
     /\ lastWait = 0 /\ reg = <<>> /\ fired = {} /\ closing = FALSE
-    /\ senderGone = FALSE /\ recvGone = FALSE /\ exited = FALSE /\ kind = <<>> /\ budget = 0 /\ prevMax = 0
+    /\ senderGone = FALSE /\ recvGone = FALSE /\ exited = FALSE /\ kind = <<>> /\ budget = 0 /\ prevMax = 0 /\ ereg = {} /\ efired = {}
 
 Init == l = 1 /\ cap = 1 /\ Fresh
 
@@ -78,14 +80,14 @@ Reset ==
     /\ queue' = <<>> /\ acc' = <<>> /\ done' = {} /\ trunc' = {} /\ ntrunc' = 0
     /\ batch' = <<>> /\ cur' = <<>> /\ phase' = "idle" /\ lastRem' = <<>> /\ attempts' = 0
     /\ lastWait' = 0 /\ reg' = <<>> /\ fired' = {} /\ closing' = FALSE
-    /\ senderGone' = FALSE /\ recvGone' = FALSE /\ exited' = FALSE /\ kind' = <<>> /\ budget' = 0 /\ prevMax' = 0
+    /\ senderGone' = FALSE /\ recvGone' = FALSE /\ exited' = FALSE /\ kind' = <<>> /\ budget' = 0 /\ prevMax' = 0 /\ ereg' = {} /\ efired' = {}
 
 SendCall ==
     /\ IsEv("SendCall")
     /\ E.item \notin DOMAIN kind
     /\ kind' = (E.item :> E.kind) @@ kind
     /\ UNCHANGED <<cap, queue, acc, done, trunc, ntrunc, batch, cur, phase, lastRem, attempts,
-                   lastWait, reg, fired, closing, senderGone, recvGone, exited, budget, prevMax>>
+                   lastWait, reg, fired, closing, senderGone, recvGone, exited, budget, prevMax, ereg, efired>>
 
 Open == ~senderGone /\ ~recvGone
 
@@ -110,7 +112,7 @@ Send ==
           /\ E.qlen = Len(queue')
           /\ Len(queue') <= cap
     /\ UNCHANGED <<cap, done, batch, cur, phase, lastRem, attempts, lastWait, reg, fired,
-                   closing, senderGone, recvGone, exited, kind, budget, prevMax>>
+                   closing, senderGone, recvGone, exited, kind, budget, prevMax, ereg, efired>>
 
 (* C09: the fallible send enqueues iff there is room, never discards anything *)
 TrySend ==
@@ -120,12 +122,12 @@ TrySend ==
     /\ \/ /\ E.code = 0 /\ Len(queue) < cap /\ (Open \/ closing)
           /\ queue' = Append(queue, E.item) /\ acc' = Append(acc, E.item)
        \/ /\ E.code = 1 /\ Len(queue) >= cap /\ (Open \/ closing)
-          /\ UNCHANGED <<queue, acc, kind, budget, prevMax>>
+          /\ UNCHANGED <<queue, acc, kind, budget, prevMax, ereg, efired>>
        \/ /\ E.code = 2 /\ (~Open \/ closing)
-          /\ UNCHANGED <<queue, acc, kind, budget, prevMax>>
+          /\ UNCHANGED <<queue, acc, kind, budget, prevMax, ereg, efired>>
     /\ E.qlen = Len(queue')
     /\ UNCHANGED <<cap, done, trunc, ntrunc, batch, cur, phase, lastRem, attempts, lastWait,
-                   reg, fired, closing, senderGone, recvGone, exited, kind, budget, prevMax>>
+                   reg, fired, closing, senderGone, recvGone, exited, kind, budget, prevMax, ereg, efired>>
 
 (* C09: fallible / blocking sends either enqueued the item or handed it back *)
 SendRet ==
@@ -135,14 +137,14 @@ SendRet ==
     /\ E.res \in {"ok", "err-full-returned", "err-closed", "sent"}
     /\ E.res = "err-closed" => (~Open \/ closing)
     /\ UNCHANGED <<cap, queue, acc, done, trunc, ntrunc, batch, cur, phase, lastRem, attempts,
-                   lastWait, reg, fired, closing, senderGone, recvGone, exited, kind, budget, prevMax>>
+                   lastWait, reg, fired, closing, senderGone, recvGone, exited, kind, budget, prevMax, ereg, efired>>
 
 FlushReq ==
     /\ IsEv("FlushReq")
     /\ E.w \notin DOMAIN reg
     /\ reg' = (E.w :> [items |-> SeqSet(acc), obs |-> E.obs]) @@ reg
     /\ UNCHANGED <<cap, queue, acc, done, trunc, ntrunc, batch, cur, phase, lastRem, attempts,
-                   lastWait, fired, closing, senderGone, recvGone, exited, kind, budget, prevMax>>
+                   lastWait, fired, closing, senderGone, recvGone, exited, kind, budget, prevMax, ereg, efired>>
 
 (* C07: a flush reports completion only when everything accepted before the request has
    finished its final attempt or was truncated (while the receiver is alive) *)
@@ -156,14 +158,32 @@ Fired ==
     /\ Flushed(E.w)
     /\ fired' = fired \cup {E.w}
     /\ UNCHANGED <<cap, queue, acc, done, trunc, ntrunc, batch, cur, phase, lastRem, attempts,
-                   lastWait, reg, closing, senderGone, recvGone, exited, kind, budget, prevMax>>
+                   lastWait, reg, closing, senderGone, recvGone, exited, kind, budget, prevMax, ereg, efired>>
+
+(* C08: every registered empty callback is invoked at most once (exactly once by the end of a
+   terminal trace) *)
+EmptyReq ==
+    /\ IsEv("EmptyReq")
+    /\ E.w \notin ereg
+    /\ ereg' = ereg \cup {E.w}
+    /\ UNCHANGED <<cap, queue, acc, done, trunc, ntrunc, batch, cur, phase, lastRem, attempts,
+                   lastWait, reg, fired, closing, senderGone, recvGone, exited, kind, budget,
+                   prevMax, efired>>
+
+EmptyFired ==
+    /\ IsEv("EmptyFired")
+    /\ E.w \in ereg /\ E.w \notin efired
+    /\ efired' = efired \cup {E.w}
+    /\ UNCHANGED <<cap, queue, acc, done, trunc, ntrunc, batch, cur, phase, lastRem, attempts,
+                   lastWait, reg, fired, closing, senderGone, recvGone, exited, kind, budget,
+                   prevMax, ereg>>
 
 FlushRet ==
     /\ IsEv("FlushRet")
     /\ E.w \in DOMAIN reg
     /\ E.ret => Flushed(E.w)
     /\ UNCHANGED <<cap, queue, acc, done, trunc, ntrunc, batch, cur, phase, lastRem, attempts,
-                   lastWait, reg, fired, closing, senderGone, recvGone, exited, kind, budget, prevMax>>
+                   lastWait, reg, fired, closing, senderGone, recvGone, exited, kind, budget, prevMax, ereg, efired>>
 
 (* C06: the receiver takes exactly the pending queue, and only when the previous batch is
    finished: batches partition the accepted sequence in order *)
@@ -174,14 +194,14 @@ Take ==
     /\ batch' = queue /\ queue' = <<>>
     /\ phase' = "taken" /\ attempts' = 0 /\ lastWait' = 0
     /\ UNCHANGED <<cap, acc, done, trunc, ntrunc, cur, lastRem, reg, fired, closing,
-                   senderGone, recvGone, exited, kind, budget, prevMax>>
+                   senderGone, recvGone, exited, kind, budget, prevMax, ereg, efired>>
 
 TakeEmpty ==
     /\ IsEv("TakeEmpty")
     /\ phase = "idle" /\ ~exited
     /\ queue = <<>>
     /\ UNCHANGED <<cap, queue, acc, done, trunc, ntrunc, batch, cur, phase, lastRem, attempts,
-                   lastWait, reg, fired, closing, senderGone, recvGone, exited, kind, budget, prevMax>>
+                   lastWait, reg, fired, closing, senderGone, recvGone, exited, kind, budget, prevMax, ereg, efired>>
 
 (* C06: the first attempt gets exactly the batch taken; a retry gets exactly the remainder
    the processor returned.  C08: bounded attempts. *)
@@ -194,7 +214,7 @@ Call ==
     /\ attempts' <= MaxAttempts
     /\ phase' = "inflight"
     /\ UNCHANGED <<cap, queue, acc, done, trunc, ntrunc, batch, lastRem, lastWait, reg, fired,
-                   closing, senderGone, recvGone, exited, kind, budget, prevMax>>
+                   closing, senderGone, recvGone, exited, kind, budget, prevMax, ereg, efired>>
 
 \* The processor's result.  After a retryable failure with a non-empty remainder the receiver
 \* either retries or gives up; the size of its budget is not part of the statement, but the
@@ -211,7 +231,7 @@ Ret ==
           /\ budget = 0 \/ attempts < budget
           /\ phase' = "retry" /\ lastRem' = E.rem
           /\ done' = done \cup (SeqSet(cur) \ SeqSet(E.rem))
-          /\ UNCHANGED <<budget, prevMax>>
+          /\ UNCHANGED <<budget, prevMax, ereg, efired>>
        \/ /\ E.outcome = "retry" /\ E.rem # <<>>             \* given up
           /\ \/ recvGone \/ closing
              \/ /\ attempts >= prevMax
@@ -226,7 +246,7 @@ Ret ==
           /\ prevMax' = Max(prevMax, attempts)
           /\ budget' = budget
     /\ UNCHANGED <<cap, queue, acc, trunc, ntrunc, batch, cur, attempts, lastWait, reg, fired,
-                   closing, senderGone, recvGone, exited, kind>>
+                   closing, senderGone, recvGone, exited, kind, ereg, efired>>
 
 (* C08: bounded, non-decreasing back-off between the attempts of one batch *)
 Wait ==
@@ -236,13 +256,13 @@ Wait ==
        THEN /\ E.ms >= lastWait /\ lastWait' = E.ms
        ELSE /\ phase = "idle" /\ lastWait' = lastWait
     /\ UNCHANGED <<cap, queue, acc, done, trunc, ntrunc, batch, cur, phase, lastRem, attempts,
-                   reg, fired, closing, senderGone, recvGone, exited, kind, budget, prevMax>>
+                   reg, fired, closing, senderGone, recvGone, exited, kind, budget, prevMax, ereg, efired>>
 
 Closing ==
     /\ IsEv("Closing")
     /\ closing' = TRUE
     /\ UNCHANGED <<cap, queue, acc, done, trunc, ntrunc, batch, cur, phase, lastRem, attempts,
-                   lastWait, reg, fired, senderGone, recvGone, exited, kind, budget, prevMax>>
+                   lastWait, reg, fired, senderGone, recvGone, exited, kind, budget, prevMax, ereg, efired>>
 
 Closed ==
     /\ IsEv("Closed")
@@ -250,7 +270,7 @@ Closed ==
     /\ IF E.by = "sender" THEN senderGone' = TRUE /\ recvGone' = recvGone
                           ELSE recvGone' = TRUE /\ senderGone' = senderGone
     /\ UNCHANGED <<cap, queue, acc, done, trunc, ntrunc, batch, cur, phase, lastRem, attempts,
-                   lastWait, reg, fired, exited, kind, budget, prevMax>>
+                   lastWait, reg, fired, exited, kind, budget, prevMax, ereg, efired>>
 
 (* C08: exec returns only after the sender is gone, with nothing queued or in flight *)
 Exit ==
@@ -258,7 +278,7 @@ Exit ==
     /\ senderGone /\ queue = <<>> /\ phase = "idle"
     /\ exited' = TRUE
     /\ UNCHANGED <<cap, queue, acc, done, trunc, ntrunc, batch, cur, phase, lastRem, attempts,
-                   lastWait, reg, fired, closing, senderGone, recvGone, kind, budget, prevMax>>
+                   lastWait, reg, fired, closing, senderGone, recvGone, kind, budget, prevMax, ereg, efired>>
 
 (* end of a trace; a terminal trace (sender dropped, receiver ran to completion) must have
    processed everything and fired every callback exactly once *)
@@ -268,11 +288,12 @@ End ==
           /\ exited
           /\ \A i \in SeqSet(acc) : i \in done \cup trunc
           /\ \A w \in DOMAIN reg : reg[w].obs => w \in fired
+          /\ ereg \subseteq efired
     /\ UNCHANGED <<cap, queue, acc, done, trunc, ntrunc, batch, cur, phase, lastRem, attempts,
-                   lastWait, reg, fired, closing, senderGone, recvGone, exited, kind, budget, prevMax>>
+                   lastWait, reg, fired, closing, senderGone, recvGone, exited, kind, budget, prevMax, ereg, efired>>
 
 Next ==
-    \/ Reset \/ SendCall \/ Send \/ TrySend \/ SendRet \/ FlushReq \/ Fired \/ FlushRet \/ Take \/ TakeEmpty
+    \/ Reset \/ SendCall \/ Send \/ TrySend \/ EmptyReq \/ EmptyFired \/ SendRet \/ FlushReq \/ Fired \/ FlushRet \/ Take \/ TakeEmpty
     \/ Call \/ Ret \/ Wait \/ Closing \/ Closed \/ Exit \/ End
 
 Spec == Init /\ [][Next]_vars
